@@ -70,6 +70,14 @@ func init() {
 		}
 		return sx.L(sx.Sym("ok"), rawSx(semver.VerifDump(v)))
 	})
+	// sv_parsei: (sys str) internal parse with infinity allowed
+	register("sv_parsei", func(a sx.V) sx.V {
+		v, err := semver.VerifParseInternal(sysOf(a.Nth(0)), a.Nth(1).Str(), true)
+		if err != nil {
+			return sx.L(sx.Sym("err"))
+		}
+		return sx.L(sx.Sym("ok"), rawSx(semver.VerifDump(v)))
+	})
 	// sv_pool: (sys (str...)) -> per string ("ok" dump)|("err"), then the full
 	// comparison matrix over the accepted ones (row-major), computed twice in
 	// two different call orders; entries that differ between the passes are
